@@ -43,6 +43,19 @@ LAYERED = ("pickle.load+always_check_safety", "pickle.load+context")
 _FOLLOW_UP = asm(("GLOBAL", ("vp_sink", "hit")), "EMPTY_TUPLE", "REDUCE", "STOP")
 
 
+_BASE = []
+
+
+def pristine_base():
+    """The built-in allowlist as it is before any activation in this process tree (taken once, in the parent, before the
+    workers fork): a defect that lets additions leak into ML_ALLOWLIST must not move the oracle with it."""
+    if not _BASE:
+        import fickling.ml as ml
+
+        _BASE.append(frozenset((m, n) for m, names in ml.ML_ALLOWLIST.items() for n in names))
+    return _BASE[0]
+
+
 def restore():
     pickle.load, pickle.loads = ORIG["load"], ORIG["loads"]
     _pickle.load, _pickle.loads = ORIG["cload"], ORIG["cloads"]
@@ -197,7 +210,7 @@ def _tree(item):
     rhow, rval, rlog, rfc = observed(lambda: ORIG["loads"](data))
     st.inc("reference_runs")
     reached = list(dict.fromkeys(rfc))
-    base = {(m, n) for m, names in ml.ML_ALLOWLIST.items() for n in names}
+    base = pristine_base()
     shape = "/".join(f"{ld}>{ct}" for ld, ct in tree) or "direct"
     for (aname, adds), entry, reactivated in itertools.product(ADDITIONS.items(), ENTRIES, (False, True)):
         allowed = base | {tuple(a.rsplit(".", 1)) for a in adds}
@@ -286,6 +299,7 @@ def check(tier):
     for d in range(1, dmax + 1):
         trees += list(itertools.product(levels, repeat=d))
     items = [(t, leaf) for t in trees for leaf in LEAVES]
+    pristine_base()
     e3.pmap(_tree, items, rep, chunksize=8)
     restore()
     n = rep.cov.get("protected_loads", 0)
